@@ -1,10 +1,12 @@
 \* C18 containers: every structural variant for ODS widths 1, 2, 4 through every codec
 SPECIFICATION Spec
 CONSTANTS
+  ResetsReceiver = TRUE
   Widths = {1, 2, 4}
 INVARIANTS
   RoundTrip
   RangeWellShaped
   StreamProofsOnlyAtEnds
+  DecodeIgnoresReceiver
   Emit
 CHECK_DEADLOCK FALSE
